@@ -58,10 +58,9 @@ func (t *Token) verifyProofs(delegations []*delegation.Token) error {
 
 	cmd := t.command
 	iss := t.issuer
-	aud := t.audience
-	if !aud.Defined() {
-		aud = t.subject
-	}
+	// The invocation's audience is the intended executor and plays no role
+	// in the proof chain: delegations are compared with the subject.
+	aud := t.subject
 
 	// control from the invocation to the root
 	for i, dlgCid := range t.proof {
